@@ -81,24 +81,38 @@ Proof.
   - exact IH.
 Qed.
 
-(* (c) ReadAll's fold over a sequence of entries (all beyond the snapshot) equals "visible":
-   an entry is returned iff no later write had an index <= its own *)
-Theorem place_all_visible start : forall es ents0 pre ents,
-  (forall e, In e es -> start < e_index e) ->
-  contiguous start ents0 -> ents0 = visible pre ->
-  place_all start ents0 es = Some ents ->
-  ents = visible (pre ++ es) /\ contiguous start ents.
+Lemma filter_comm {A} (P Q : A -> bool) l : filter P (filter Q l) = filter Q (filter P l).
 Proof.
-  induction es as [|e r IH]; intros ents0 pre ents Hgt Hc Hv H.
+  induction l as [|x l IH]; [reflexivity|]. cbn [filter].
+  destruct (P x) eqn:Ep, (Q x) eqn:Eq; cbn [filter]; rewrite ?Ep, ?Eq, IH; reflexivity.
+Qed.
+
+Lemma filter_none {A} (P : A -> bool) l : (forall x, In x l -> P x = false) -> filter P l = [].
+Proof.
+  induction l as [|x l IH]; intros H; [reflexivity|]. cbn [filter].
+  rewrite (H x (or_introl eq_refl)). apply IH. intros y Hy. apply H. now right.
+Qed.
+
+(* (c) ReadAll's fold over ANY sequence of entry records, opened at snapshot index [start]:
+   if it does not refuse, it returns exactly the visible entries (no later write had an index <= theirs)
+   that lie beyond the snapshot, with contiguous indices start+1, start+2, ... *)
+Theorem place_all_visible start : forall es ents0 pre ents,
+  contiguous start ents0 -> ents0 = filter (fun x => start <? e_index x) (visible pre) ->
+  place_all start ents0 es = Some ents ->
+  ents = filter (fun x => start <? e_index x) (visible (pre ++ es)) /\ contiguous start ents.
+Proof.
+  induction es as [|e r IH]; intros ents0 pre ents Hc Hv H.
   - cbn in H. inversion H; subst. now rewrite app_nil_r.
   - cbn [place_all] in H. destruct (place start ents0 e) as [ents1|] eqn:Ep; [|discriminate].
-    assert (Hlt : start < e_index e) by (apply Hgt; now left).
-    pose proof (place_filter _ _ _ _ Hc Hlt Ep) as Hf.
     pose proof (place_contiguous _ _ _ _ Hc Ep) as Hc1.
     replace (pre ++ e :: r) with ((pre ++ [e]) ++ r) by (rewrite <- app_assoc; reflexivity).
     apply (IH ents1 (pre ++ [e])); auto.
-    + intros y Hy. apply Hgt. now right.
-    + rewrite visible_snoc, <- Hv. exact Hf.
+    rewrite visible_snoc, filter_app. cbn [filter].
+    destruct (N.ltb_spec start (e_index e)) as [Hlt|Hge].
+    + rewrite (place_filter _ _ _ _ Hc Hlt Ep). rewrite Hv. f_equal. apply filter_comm.
+    + unfold place in Ep. assert (E : (start <? e_index e) = false) by now apply N.ltb_ge.
+      rewrite E in Ep. inversion Ep; subst ents1. rewrite app_nil_r. symmetry. apply filter_none.
+      intros x Hx. apply filter_In in Hx as [_ Hx]. apply N.ltb_lt in Hx. apply N.ltb_ge. lia.
 Qed.
 
 Lemma visible_In es e : In e (visible es) -> In e es.
@@ -141,6 +155,6 @@ Lemma ra_record_entry start d r s e :
   end.
 Proof.
   intros Ht He. unfold ra_record, place. rewrite Ht, N.eqb_refl, He.
-  destruct (sn_index start <? e_index e); [|destruct s; reflexivity].
+  destruct (sn_index start <? e_index e); [|reflexivity].
   cbv zeta. destruct (nlen (ra_ents s) <? e_index e - sn_index start - 1); reflexivity.
 Qed.
